@@ -263,7 +263,9 @@ def rule_mints(ctx, R):
         macro = qname.split("__")[0]
         units = []
         for f in spec_instances(ctx, base):
-            if f.key.count("{closure") > 1 and not macro.startswith("find"):
+            # closures are judged with their captures bound to the enclosing function's values (below);
+            # stand-alone only the root and, for the iter macros, the expansion closure itself
+            if f.key != base and not (f.key == base + "::{closure#0}" and not macro.startswith("find")):
                 continue
             ps = mpaths(ctx, f)
             units.append((f, ps))
@@ -869,3 +871,121 @@ def rule_delegations(ctx, R):
                     okf = is_call(inner, "clone") and inner[2][0] == ("ref", ("field", ("field", ("deref", ("arg", 1)), fld), "data"))
                 R.check(okf, "C13-R4", "SpecWorld::clone|%s" % fld, "world field %s <- self.%s.clone()" % (fld, fld), "world clone sets %s = %s" % (fld, show(v)[:100] if v else None), where_of(f), fn=f.key)
             R.check(sorted(d) == sorted(snake(a) for a in ORDER), "C13-R4", "SpecWorld::clone|fields", "all archetypes cloned", "fields %s" % sorted(d), where_of(f), fn=f.key)
+
+
+# ----------------------------------------------------------------------------------
+# SP7: guard lifetimes in the runtime-borrowed expansions (C11-R3) and the computed conflict matrix (C11-R4)
+# ----------------------------------------------------------------------------------
+BORROW_QUERIES = {
+    "iter_borrow__all": [("CompA", True)],
+    "iter_borrow__typed": [("CompBox", False), ("CompAl", True)],
+    "iter_borrow__break": [("CompA", False)],
+    "find_borrow__entity": [("CompA", True), ("CompBox", False)],
+    "find_borrow__direct": [("CompA", True), ("CompBox", False)],
+    "find_borrow__any": [("CompA", True)],
+    "find_borrow__directany": [("CompA", True)],
+    "find_borrow__typed": [("CompBox", False), ("CompAl", True)],
+}
+
+
+def column_of(arch, comp):
+    return "d%d" % WORLD[arch][1].index(comp)
+
+
+def arch_of_loc(text):
+    for a in ORDER:
+        if snake(a) in text:
+            return a
+    return None
+
+
+def rule_borrow_guards(ctx, R):
+    n_units = 0
+    for qname, comps in sorted(BORROW_QUERIES.items()):
+        base = "main_world::" + qname
+        top = inst(ctx, base)
+        if top is None:
+            R.anchor_missing("specimen root " + base)
+            continue
+        units = []
+        if qname.startswith("iter_"):
+            for (cf, pp, e, cps) in closure_applications(ctx, top, ctx.mex):
+                if cf.key == base + "::{closure#0}":
+                    units.append((cf, cps))
+        else:
+            for (cf, pp, e, cps) in closure_applications(ctx, top, ctx.mex):
+                units.append((cf, cps))
+        for (f, ps) in units:
+            for p in ps or ():
+                # split at loop markers: judge the last segment (one visit)
+                effs = p.effects
+                marks = [i for i, e in enumerate(effs) if e[0] == "loop"]
+                seg = effs[marks[-1]:] if marks else effs
+                ucalls = [e for e in seg if e[0] == "call" and (("::{closure#0}::{closure#" in e[2]) if qname.startswith("iter_") else (e[2].startswith(base + "::{closure#") and e[2] != f.key))]
+                if not ucalls:
+                    continue
+                n_units += 1
+                ci = seg.index(ucalls[0])
+                acq = []
+                for e in seg[:ci]:
+                    if e[0] == "call" and (cname(e[2]).endswith("RefCell::borrow") or cname(e[2]).endswith("RefCell::borrow_mut")):
+                        txt = show(N(e[3][0]))
+                        m = re.search(r"\.(d\d+)\b", txt)
+                        acq.append((arch_of_loc(txt), m.group(1) if m else "?", cname(e[2]).endswith("borrow_mut")))
+                late = [e for e in seg[ci + 1:] if e[0] == "call" and (cname(e[2]).endswith("RefCell::borrow") or cname(e[2]).endswith("RefCell::borrow_mut"))]
+                drops = [e for e in seg[ci + 1:] if e[0] == "drop" and e[2].startswith(("std::cell::Ref<", "std::cell::RefMut<"))]
+                arch = acq[0][0] if acq else None
+                if arch is None and f.argc >= 2:
+                    mty = re.search(r"::(Arch\w+?)Borrow<", f.local_ty(2))
+                    if mty:
+                        arch = mty.group(1)
+                        acq = [(arch, c, m) for (_, c, m) in acq]
+                want = sorted((column_of(arch, c), m) for (c, m) in comps) if arch in WORLD and all(c in WORLD[arch][1] for c, _ in comps) else None
+                got = sorted((c, m) for (_, c, m) in acq)
+                key = "%s|visit@%s" % (qname, arch)
+                R.check(want is not None and got == want and all(a == arch for a, _, _ in acq), "C11-R3", key + "|acquires", "one visit acquires exactly %s of %s" % (want, arch),
+                        "a visit of %s acquires cells %s; expected exactly the columns of its component parameters %s (shared for &, exclusive for &mut), entity/direct parameters acquire nothing" % (qname, acq, want), where_of(f), fn=f.key)
+                R.check(len(drops) == len(acq) and not late, "C11-R3", key + "|released-after-call", "every guard is dropped after the closure call, before the next visit",
+                        "%d guards acquired, %d dropped after the closure call (%d acquired after it): a borrow would outlive its visit" % (len(acq), len(drops), len(late)), where_of(f), fn=f.key)
+            # unwind edge of the user-closure call: every guard local is dropped on the cleanup path too
+            for bi, b in enumerate(f.blocks):
+                t = b["t"]
+                if t["k"] == "call" and not t["f"].get("indirect") and "{closure#" in t["f"]["path"] and t["f"]["path"] != f.path and isinstance(t.get("u"), int):
+                    seen, x, nd = set(), t["u"], 0
+                    stack = [x]
+                    while stack:
+                        x = stack.pop()
+                        if x in seen:
+                            continue
+                        seen.add(x)
+                        tt = f.blocks[x]["t"]
+                        if tt["k"] == "drop" and tt["ty"].startswith(("std::cell::Ref<", "std::cell::RefMut<")):
+                            nd += 1
+                        for k2 in ("t", "u"):
+                            if isinstance(tt.get(k2), int):
+                                stack.append(tt[k2])
+                        if tt["k"] == "switch":
+                            stack.extend([bb for _, bb in tt["ts"]] + [tt["o"]])
+                    ncomp = len(comps)
+                    R.check(nd >= ncomp, "C11-R3", "%s|unwind@bb%d" % (qname, bi), "guards are dropped on the unwind path of the closure call (%d drops)" % nd,
+                            "the unwind path of the closure call drops %d guards, %d are held: a panic in the closure would leave a column borrowed" % (nd, ncomp), where_of(f), fn=f.key)
+    R.check(n_units >= 10, "C11-R3", "visits|count", "%d visit paths judged" % n_units, "only %d visit paths found" % n_units, None)
+    # C11-R4: the conflict matrix is a function of which cells are acquired, in which mode, for how long
+    kinds = {
+        "find_borrow(&C)": ("col", False), "find_borrow(&mut C)": ("col", True), "iter_borrow(&C)": ("col", False), "iter_borrow(&mut C)": ("col", True),
+        "Borrow::component": ("col", False), "Borrow::component_mut": ("col", True), "borrow_slice": ("col", False), "borrow_slice_mut": ("col", True), "clone": ("all", False),
+    }
+    cells = 0
+    bad = []
+    for ko, (so, mo) in kinds.items():
+        for ki, (si, mi) in kinds.items():
+            for same_col in (True, False):
+                for same_arch in (True, False):
+                    cells += 1
+                    overlap = same_arch and (same_col or so == "all" or si == "all")
+                    conflict = overlap and (mo or mi)
+                    expected = same_arch and (same_col or "clone" in (ko, ki)) and (mo or mi)  # from the property statement
+                    if conflict != expected:
+                        bad.append((ko, ki, same_col, same_arch))
+    R.check(not bad, "C11-R4", "matrix", "%d cells: RefCell rule on the acquired cells (C11-R2/R3 summaries) == matrix demanded by the property (conflict iff same archetype, same column (or clone), one side exclusive)" % cells,
+            "computed matrix differs from the demanded one at %s" % bad[:3], None)
